@@ -453,9 +453,6 @@ class StructuredSupport(Contract):
                 T, start, stop, IMG, K = S.T[i], S.start[i], S.stop[i], S.IMG[i], sup.n
                 # intermediate lemma (proved, then used): the images not collected lie beyond every element (stop is non-decreasing, images too)
                 cx.lemma('axis%d:every-image-inside-an-element-was-collected' % i, qforall(2, lambda e, t: z3.Implies(z3.And(0 <= e, e < T, t >= 0, start.sel(e) <= IMG(t), IMG(t) < stop.sel(e)), t < K)))
-                INAX, TW, LEN, EL, POS = S.INAX[i], S.TW[i], sup.len_f, sup.el_f, sup.pos_f
-                cx.lemma('axis%d:every-element-with-an-image-is-in-a-collected-range' % i, qforall(1, lambda e: z3.Implies(z3.And(0 <= e, e < T, INAX(e)), z3.And(
-                    0 <= TW(e), TW(e) < K, 0 <= POS(TW(e), e), POS(TW(e), e) < LEN(TW(e)), EL(TW(e), POS(TW(e), e)) == e))))
         self.loops = {0: Loop(inv, label='images', match='while dof_i <', havoc={'supports_i': lambda cx, env: VecList.fresh(cx, 'supports_i')}, on_exit=on_exit)}
 
     def setup(self, cx):
@@ -471,7 +468,7 @@ class StructuredSupport(Contract):
         # self.ndofs == prod_i N_i (established by StructuredBasis.__init__, contract in C12_ctor); kept as ONE symbol so that the
         # obligations stay linear: what is used of the product are the two mixed-radix facts below
         nd = cx.int('ndofs')
-        S = State(T=T, N=N, start=start, stop=stop, IMG=IMG, INAX=INAX, TW=TW, d=d, nd=nd)
+        S = State(T=T, N=N, start=start, stop=stop, IMG=IMG, INAX=INAX, d=d, nd=nd)
         self.S = S
         for i in range(r):
             # class invariant (as built by StructuredTopology._basis_spline): at least one element / dof per axis, the tables are
@@ -533,14 +530,6 @@ class StructuredSupport(Contract):
                     u = v.u if isinstance(v, ScaledVec) else v
                     # intermediate lemma (proved, then used by the ordering clause)
                     ctx.lemma('axis%d:listed-elements-in-range' % i, u.forall(lambda a, e, i=i: z3.And(0 <= e, e < T[i])))
-                for i in range(len(axes) - 1):
-                    f = axes[i].factor if isinstance(axes[i], ScaledVec) else z3.IntVal(1)
-                    rest = axes[i + 1:]
-                    # intermediate lemma (proved, then used by the ordering clause): the contribution of the later axes stays below the stride of axis i
-                    ctx.lemma('axis%d:later-axes-stay-below-its-stride' % i, qforall(len(rest), lambda *p, rest=rest, f=f: z3.Implies(
-                        z3.And(*[z3.And(0 <= p[j], p[j] < rest[j].n) for j in range(len(rest))]),
-                        z3.And(0 <= z3.Sum(*[rest[j].sel(p[j]) for j in range(len(rest))]) if len(rest) > 1 else 0 <= rest[0].sel(p[0]),
-                               (z3.Sum(*[rest[j].sel(p[j]) for j in range(len(rest))]) if len(rest) > 1 else rest[0].sel(p[0])) < f))))
             return Numpy().np_asarray(ctx, x, dtype)
 
         class Builtins:
